@@ -64,6 +64,21 @@ class GaussianART(BaseART):
         assert isinstance(params["sigma_init"], np.ndarray)
         assert np.all(params["sigma_init"] > 0.0)
 
+    def check_dimensions(self, X: np.ndarray):
+        """Check the data has the correct dimensions.
+
+        Parameters
+        ----------
+        X : np.ndarray
+            The dataset.
+
+        """
+        if not hasattr(self, "dim_"):
+            assert self.params["sigma_init"].shape == (X.shape[1],)
+            self.dim_ = X.shape[1]
+        else:
+            assert X.shape[1] == self.dim_
+
     def category_choice(
         self, i: np.ndarray, w: np.ndarray, params: dict
     ) -> tuple[float, Optional[dict]]:
